@@ -253,6 +253,27 @@ pub fn parse_filesize(s: &str) -> Option<u64> {
         };
     }
 
+    if length > 1 && string.ends_with("t") {
+        return match &string[..(length - 1)].parse::<f64>() {
+            Ok(size) => Some((*size * 1024.0 * 1024.0 * 1024.0 * 1024.0) as u64),
+            _ => None,
+        };
+    }
+
+    if length > 2 && string.ends_with("tb") {
+        return match &string[..(length - 2)].parse::<f64>() {
+            Ok(size) => Some((*size * 1000.0 * 1000.0 * 1000.0 * 1000.0) as u64),
+            _ => None,
+        };
+    }
+
+    if length > 3 && string.ends_with("tib") {
+        return match &string[..(length - 3)].parse::<f64>() {
+            Ok(size) => Some((*size * 1024.0 * 1024.0 * 1024.0 * 1024.0) as u64),
+            _ => None,
+        };
+    }
+
     if length > 1 && string.ends_with("b") {
         return match &string[..(length - 1)].parse::<u64>() {
             Ok(size) => Some(size * 1),
